@@ -41,7 +41,7 @@ class FaultyWorld(world.World):
 
 def random_config(rng, force=None):
     cfg = {"qtype": rng.choice(list(QTYPES.values())), "downenc": rng.choice(["-", "T", "S", "U", "V", "R"]), "lazy": rng.choice([0, 1, 1]),
-           "maxlen": rng.choice([255, 255, 200, 120, 100]), "autofrag": rng.choice([1, 1, 0]), "fragsize": rng.choice([200, 500, 1200, 50]),
+           "maxlen": rng.choice([255, 255, 200, 120, 100]), "autofrag": rng.choice([1, 1, 0]), "fragsize": rng.choice([50, 100, 150]),
            "raw_mode": 0, "seltimeout": rng.choice([4, 2, 1])}
     if cfg["downenc"] == "R" and cfg["qtype"] not in (10, 65399, 16):
         cfg["downenc"] = "T"
@@ -105,6 +105,9 @@ def one_world(args):
             out["late_c"], out["late_s"] = late_c, late_s
         w.settle(30000)
     out["sent_c"], out["sent_s"] = sent_c, sent_s
+    out["accepted_c"], out["accepted_s"] = w.accepted_c, w.accepted_s
+    fs = [s_.slots[0]["fs"] for s_ in w.s.steps[-50:] if s_.slots and 0 in s_.slots]
+    out["fs"] = int(fs[-1]) if fs else 100
     out["tunw_s"], out["tunw_c"] = w.tunw_s, w.tunw_c
     out["stats"] = w.stats
     out["end_ms"] = w.ms
